@@ -208,6 +208,9 @@ def exec_behaviour(item):
         layered = {"rule": {rid: dict(en, **{attr: low})}, "file_rules": [{path: {"rule": {rid: {attr: val}}}}]}
     if not en and level in ("global", "group") and not layered["rule"][rid]:
         del layered["rule"][rid]
+    if attr == "severity" and val not in ("Warning", "Error"):
+        for c in (single, layered):
+            c["severity"] = {"Todo": {"type": "error"}, "Future": {"type": "warning"}}
     obs = []
     wide = level in ("global", "group")  # these levels touch other rules too: only what concerns `rid` is comparable, in check mode
     for cfg in (single, layered):
@@ -240,7 +243,7 @@ def exec_behaviour(item):
         r.violations.append({"key": ("behaviour", "disabled_rule_reported_or_fixed", level), "detail": {"layered": layered}, "item": common.strip_item(item)})
     if attr == "fixable" and val is False and b["fired"]:
         r.violations.append({"key": ("behaviour", "fixable_false_rule_fixed", level), "detail": {"layered": layered}, "item": common.strip_item(item)})
-    if attr == "severity" and val == "Warning" and rid in b["junit"]:
+    if attr == "severity" and val in ("Warning", "Future") and rid in b["junit"]:
         r.violations.append({"key": ("behaviour", "warning_rule_in_junit", level), "detail": {"layered": layered}, "item": common.strip_item(item)})
     r.nontrivial = item["id"]
     r.states.add(base.h64((rid, attr, level)))
@@ -305,7 +308,7 @@ def items(tier):
         fx = fx[::6]
     for rid, sid in fx:
         opts = [o for o in inv[rid]["options"] if configs_k1.values_for(rid, o)]
-        todo = [("disable", True, False), ("fixable", False, True), ("severity", "Warning", "Error")]
+        todo = [("disable", True, False), ("fixable", False, True), ("severity", "Warning", "Error"), ("severity", "Future", "Todo")]
         if opts:
             vals = configs_k1.values_for(rid, opts[0])
             todo.append((opts[0], vals[0], inv[rid]["options"][opts[0]]))
@@ -315,7 +318,7 @@ def items(tier):
                     continue
                 if tier == "quick" and level == "rule":
                     continue
-                out.append(dict(universe.mk(sid), part="behaviour", rule=rid, attr=attr, level=level, value=val, lower=low, id=f"behaviour/{rid}/{attr}@{level}"))
+                out.append(dict(universe.mk(sid), part="behaviour", rule=rid, attr=attr, level=level, value=val, lower=low, id=f"behaviour/{rid}/{attr}={val}@{level}"))
     # (3) errors
     with contextlib.redirect_stdout(io.StringIO()):
         rl = rule_list.rule_list(vhdlFile.vhdlFile([""]), None)
